@@ -92,6 +92,9 @@ pub struct Inv {
     groups: Vec<GroupId>,
     welcomes: Vec<WMeta>,
     used_wrappers: Vec<(usize, usize, u64)>, // (client, w, salt)
+    /// the `Welcome` value the FIRST successful process_welcome of (client, w) returned: what an application
+    /// that keeps the value (every UniFFI caller does) later passes to accept / decline (`held`)
+    held: HashMap<(usize, usize), mdk_storage_traits::welcomes::types::Welcome>,
     rumor_ids: HashMap<EventId, usize>,
     msg_seq: u64,
     /// C03: every application message ever sent: (content token, event index)
@@ -109,7 +112,7 @@ impl Inv {
             w.exec(&["kp", &i.to_string()]);
             w.exec(&["kp", &i.to_string()]);
         }
-        Inv { w, groups: vec![], welcomes: vec![], used_wrappers: vec![], rumor_ids: HashMap::new(), msg_seq: 0, sent: vec![] }
+        Inv { w, groups: vec![], welcomes: vec![], used_wrappers: vec![], held: HashMap::new(), rumor_ids: HashMap::new(), msg_seq: 0, sent: vec![] }
     }
 
     fn gnum(&mut self, g: &GroupId) -> usize {
@@ -428,6 +431,7 @@ impl Inv {
                 let r = self.with(j, |_, mdk| with_mdk!(mdk, |m| m.process_welcome(&wrapper, &rumor)));
                 match r {
                     Ok(sw) => {
+                        self.held.entry((j, w)).or_insert_with(|| sw.clone());
                         let g = self.gnum(&sw.mls_group_id);
                         let n = self.rnum(&sw.id);
                         let st = match sw.state {
@@ -445,8 +449,11 @@ impl Inv {
                 let j = u(t[1]) as usize;
                 let w = u(t[2]) as usize;
                 let id = self.welcomes[w].rumor.id;
+                // `held`: the caller passes the value it kept from process_welcome (state as returned then),
+                // not a fresh read of the stored welcome
+                let held = if t.len() > 3 && t[3] == "held" { Some(self.held.get(&(j, w)).cloned()) } else { None };
                 let r: Result<(), mdk_core::Error> = self.with(j, |_, mdk| {
-                    with_mdk!(mdk, |m| match id.and_then(|id| m.get_welcome(&id).ok().flatten()) {
+                    with_mdk!(mdk, |m| match held.clone().unwrap_or_else(|| id.and_then(|id| m.get_welcome(&id).ok().flatten())) {
                         None => Err(mdk_core::Error::Welcome("no stored welcome".into())),
                         Some(sw) => {
                             if t[0] == "accept" { m.accept_welcome(&sw) } else { m.decline_welcome(&sw) }
